@@ -332,4 +332,109 @@ def aripBasic (a : AripIn) : QMat × QMat :=
 /-- `disaggregate_arip_data` over all data variants: one system per variant (the loop body is `aripSolve`) -/
 def aripSolveAll (vs : List AripIn) (kkt : Bool := true) : List (R (List Rat)) := vs.map (aripSolve · kkt)
 
+/-! ### Non-finite observations, spellings of the arip model (round 5)
+
+`±inf` are observations, not missing values: only NaN is discarded by `discard_missing`. The within-period routine is
+modelled once more over the extended values `XVal` (NaN, −∞, +∞, rationals) with IEEE semantics for `+`, `×`, `<`. -/
+
+inductive XVal where
+  | nan | ninf | pinf
+  | fin (q : Rat)
+  deriving DecidableEq, Repr, Inhabited
+
+def XVal.isNan : XVal → Bool
+  | .nan => true
+  | _ => false
+
+def XVal.add : XVal → XVal → XVal
+  | .nan, _ | _, .nan => .nan
+  | .pinf, .ninf | .ninf, .pinf => .nan
+  | .pinf, _ | _, .pinf => .pinf
+  | .ninf, _ | _, .ninf => .ninf
+  | .fin a, .fin b => .fin (a + b)
+
+/-- sign of an extended value: -1, 0, 1 (NaN: 0, never used) -/
+def XVal.sign : XVal → Int
+  | .nan => 0
+  | .ninf => -1
+  | .pinf => 1
+  | .fin q => if q < 0 then -1 else if q = 0 then 0 else 1
+
+def XVal.mul : XVal → XVal → XVal
+  | .nan, _ | _, .nan => .nan
+  | .fin a, .fin b => .fin (a * b)
+  | a, b =>                                   -- at least one infinite factor
+    let s := a.sign * b.sign
+    if s = 0 then .nan else if s < 0 then .ninf else .pinf
+
+/-- `a < b` in IEEE arithmetic -/
+def XVal.lt : XVal → XVal → Bool
+  | .nan, _ | _, .nan => false
+  | .ninf, .ninf => false
+  | .ninf, _ => true
+  | _, .ninf => false
+  | .pinf, _ => false
+  | .fin _, .pinf => true
+  | .fin a, .fin b => decide (a < b)
+
+/-- division of a sum by a positive count -/
+def XVal.divNat : XVal → Nat → XVal
+  | .fin q, n => .fin (q / (n : Rat))
+  | x, _ => x
+
+def xApply : Method → List XVal → XVal
+  | .mean, l => (l.foldl XVal.add (.fin 0)).divNat l.length
+  | .sum, l => l.foldl XVal.add (.fin 0)
+  | .prod, l => l.foldl XVal.mul (.fin 1)
+  | .first, l => l.head?.getD .nan
+  | .last, l => l.getLast?.getD .nan
+  | .min, l => match l with
+    | [] => .nan
+    | x :: xs => xs.foldl (fun cur it => if it.lt cur then it else cur) x
+  | .max, l => match l with
+    | [] => .nan
+    | x :: xs => xs.foldl (fun cur it => if cur.lt it then it else cur) x
+
+/-- `_aggregate_within_data` (no `select`) on extended values: `discard_missing` removes NaN and nothing else -/
+def xAggWithin (discard : Bool) (m : Method) (w : List XVal) : XVal :=
+  let w := if discard then w.filter (fun x => !x.isNan) else w
+  if w.isEmpty then .nan else xApply m w
+
+/-- the embedding of the rational / NaN values of the main model -/
+def XVal.ofVal : Val → XVal
+  | none => .nan
+  | some q => .fin q
+
+/-- the two model forms of arip and their documented spellings (`_CHOOSE_FORM`) -/
+inductive AripForm where
+  | rate | diff
+  deriving DecidableEq, Repr
+
+def AripForm.ofString? : String → Option AripForm
+  | "rate" => some .rate | "multiplicative" => some .rate
+  | "diff" => some .diff | "additive" => some .diff
+  | _ => none
+
+/-- `form.get_sigma_vector(rho, n)`: `rho ** arange(n)` for the rate form, ones for the diff form -/
+def AripForm.sigma (f : AripForm) (rho : Rat) (n : Nat) : List Rat :=
+  match f with
+  | .rate => (List.range n).map fun t => rho ^ t
+  | .diff => List.replicate n 1
+
+/-- `form.get_rho`: 1 for the diff form (the rate form's rho is a float computation, an input of the model) -/
+def AripForm.rhoOf (f : AripForm) (rateRho : Rat) : Rat :=
+  match f with
+  | .rate => rateRho
+  | .diff => 1
+
+/-- the documented spellings of the aggregation (`_CHOOSE_AGGREGATION_VECTOR`) -/
+def aripAggVector? (name : String) (n : Nat) : Option (List Rat) :=
+  match name with
+  | "sum" => some (List.replicate n 1)
+  | "mean" => some (List.replicate n (1 / (n : Rat)))
+  | "avg" => some (List.replicate n (1 / (n : Rat)))
+  | "first" => some ((List.range n).map fun i => if i = 0 then 1 else 0)
+  | "last" => some ((List.range n).map fun i => if i + 1 = n then 1 else 0)
+  | _ => none
+
 end IrisVerif.Conv
